@@ -223,8 +223,11 @@ fn line_reader(src: Src, ctor: Ctor) -> Option<LineReader<'static>> {
 }
 
 fn prefilled(src: Src, cap: usize) -> BufReader<Src> {
-    let mut br = BufReader::with_capacity(cap.max(1), src);
-    let _ = br.fill_buf();
+    // capacity 0 is legal: such a BufReader cannot hold anything and is handed over unused
+    let mut br = BufReader::with_capacity(cap, src);
+    if cap > 0 {
+        let _ = br.fill_buf();
+    }
     br
 }
 
@@ -1157,7 +1160,7 @@ pub fn random_ctor(rng: &mut crate::prng::Rng) -> Ctor {
     match rng.below(10) {
         0 => Ctor::FromRead,
         1 => Ctor::FromBoxed,
-        2 => Ctor::FromBufReader(1 + rng.usize(100)),
+        2 => Ctor::FromBufReader(if rng.chance(1, 5) { rng.usize(2) } else { 1 + rng.usize(100) }),
         3 => Ctor::FromBufReader(*rng.pick(&[4096usize, 16384, 16385, 20000, 40000, 70000])),
         4 | 5 => Ctor::AfterPreamble(1 + rng.usize(60), *rng.pick(&CTOR_CHUNKS)),
         6 | 7 => Ctor::Prefetched(*rng.pick(&CTOR_CHUNKS)),
